@@ -17,9 +17,41 @@ TASK = Fut(NONE)
 CLASSES["Subscription"].fields["unsubscribe_future"] = Fut(NONE)
 
 
-@contract(MOD + ":GroupCoordinator.__coordination_routine", ["C19", "C04"])
+SPEC_TYPES["SUBSCRIPTION"] = Ref("Subscription")
+CLASSES["Subscription"].fields["g_manual"] = BOOL          # ghost: a ManualSubscription (assign()), fixed at construction
+# What the application's calls (subscribe/assign/unsubscribe, any number of them, at any suspension of this task) keep true.
+# Assumed after every await of the routine, listed in the evidence; each is what the named mutators establish:
+RELY = [
+    # Subscription._assign replaces the assignment by a new, active one; an assignment is retired only there and by
+    # _unsubscribe, which retires the subscription with it
+    ("an-active-subscriptions-assignment-is-active",
+     "forall(SUBSCRIPTION, lambda s: implies(s.g_active and s._assignment is not None, not s._assignment.unassign_future.done()))"),
+    # SubscriptionState._change_subscription / unsubscribe retire the subscription they replace or drop
+    ("only-the-current-subscription-is-active",
+     "forall(SUBSCRIPTION, lambda s: implies(s.g_active, self._subscription._subscription is not None"
+     " and s == self._subscription._subscription))"),
+    # ManualSubscription.__init__ builds its assignment; nothing ever removes it
+    ("a-manual-subscription-always-has-its-assignment",
+     "forall(SUBSCRIPTION, lambda s: implies(s.g_manual, s._assignment is not None))"),
+]
+# (two-state: what a suspension cannot change)
+RELY2 = [("a-subscriptions-kind-never-changes", "forall(SUBSCRIPTION, lambda s: s.g_manual == old(s.g_manual))")]
+
+
+@contract(MOD + ":GroupCoordinator.__coordination_routine", ["C19", "C04", "C13", "C06"])
 def _(c):
     c.self_("GroupCoordinator")
+    for lbl, e in RELY:
+        c.requires(e, lbl)
+        c.rely(e, lbl)
+    for lbl, e in RELY2:
+        c.rely(e, lbl)
+    # C13 "When a partition is (re)assigned the consumer starts at the group's committed offset", C06 "the member does not
+    # disturb [the group]": both are this task's work - it starts the committed-offset refresh for every new assignment and
+    # keeps the membership. It checks its own view of the subscription with `assert`s; whatever the application calls while
+    # the task is suspended, none of them may fail: an AssertionError ends the task for good ("Unexpected error during
+    # coordination"), and nothing fetches committed offsets, heartbeats or commits afterwards
+    c.never_raises("AssertionError")
     c.local("subscription", Opt(Ref("Subscription")))
     c.local("assignment", Opt(Ref("Assignment")))
     c.local("new_assignment", Opt(Ref("Assignment")))
@@ -31,12 +63,15 @@ def _(c):
     c.call("self.request_rejoin", modifies=["Future.state", "Future.nres"], note="request_rejoin (under contract, C06)")
     c.call("self._subscription.wait_for_subscription", returns=Fut(NONE), post=["fresh(result)"],
            note="a future resolved by the next subscribe()/assign()")
-    c.call("self._subscription.partitions_auto_assigned", returns=BOOL, note="subscription kind")
+    c.call("self._subscription.partitions_auto_assigned", returns=BOOL,
+           post=["implies(self._subscription._subscription is not None, result == (not self._subscription._subscription.g_manual))"],
+           note="SubscriptionState.partitions_auto_assigned: whether the current subscription is by topics/pattern (not a manual one)")
     c.call("asyncio.wait", returns=Tup(Set(TASK), Set(TASK)), havoc_all=True, raises=["CancelledError"],
            kwargs=["return_when", "timeout"], nargs=1,
            note="asyncio.wait(futures, timeout=..., return_when=FIRST_COMPLETED): suspends until one of them is done or the timeout")
     c.call("self.ensure_coordinator_known", havoc_all=True, raises=["KafkaError", "CancelledError"], note="suspends until a coordinator is known")
-    c.call("self.need_rejoin", returns=BOOL, note="whether the subscription or the group state calls for a rejoin")
+    c.call("self.need_rejoin", returns=BOOL, post=["result == (a0._assignment is None or self._rejoin_needed_fut.done())"],
+           note="GroupCoordinator.need_rejoin (under contract, zz_small.py, with this postcondition)")
     c.call("self.ensure_active_group", returns=Opt(Ref("Assignment")), havoc_all=True, raises=["KafkaError", "CancelledError"],
            note="ensure_active_group (under contract, coordinator_rejoin.py): one rejoin attempt")
     c.call("self._maybe_do_autocommit", returns=Opt(REAL), havoc_all=True, raises=["KafkaError", "CancelledError"],
@@ -56,6 +91,7 @@ def _(c):
     c.hook("before", "asyncio.wait", [
         ("assert", "every-wait-of-the-coordination-task-is-also-a-wait-for-close", WAKES),
     ])
+    c.replay_fn = lambda model, ob=None: {"script": _RESUBSCRIBE_SCRIPT}
     c.ensures_internal("ends-only-when-closing",
                        "self._closing.done()")
     c.ensures_internal("the-final-commit-is-attempted-for-the-assignment-in-hand",
@@ -89,3 +125,66 @@ def some_assignment(ex, st, a):
     if isinstance(a.ty, Opt):
         return V(ty, a.t)
     return T.opt_some(ty, V(Ref("Assignment"), a.t))
+
+
+# replay: a real GroupCoordinator over a mocked client; the application changes the subscription while the coordination task
+# is suspended (waiting for a subscription / looking the coordinator up); the task must still be running afterwards
+_RESUBSCRIBE_SCRIPT = '''
+import asyncio, logging
+logging.disable(logging.CRITICAL)
+from unittest import mock
+from aiokafka.consumer.group_coordinator import GroupCoordinator
+from aiokafka.consumer.subscription_state import SubscriptionState
+from aiokafka.structs import TopicPartition
+def manual(s, t): s.assign_from_user({TopicPartition(t, 0)})
+def auto(s, t): s.subscribe({t})
+async def scenario(first, change, lookup_blocks):
+    subs = SubscriptionState()
+    subs.register_fetch_waiters(set())
+    client = mock.MagicMock()
+    gate = asyncio.Event()
+    async def lookup(*a, **k):
+        if lookup_blocks: await gate.wait()
+        return 0
+    client.coordinator_lookup = lookup
+    async def ready(*a, **k): return True
+    client.ready = ready
+    async def send(*a, **k): await asyncio.sleep(3600)
+    client.send = send
+    client.cluster.partitions_for_topic = lambda t: {0}
+    async def nothing(*a, **k): return None
+    client._maybe_wait_metadata = nothing
+    client.set_topics = lambda *a, **k: asyncio.get_running_loop().create_future()
+    if first is not None: first(subs, "a")
+    coord = GroupCoordinator(client, subs, group_id="g", enable_auto_commit=False)
+    await asyncio.sleep(0.02)          # the task is suspended: no subscription yet, or the coordinator lookup is in flight
+    change(subs)
+    gate.set()
+    await asyncio.sleep(0.1)
+    t = coord._coordination_task
+    res = None
+    if t.done() and not t.cancelled() and t.exception() is not None:
+        res = "%r" % t.exception()
+    t.cancel()
+    for x in (coord._heartbeat_task, coord._commit_refresh_task):
+        if x is not None: x.cancel()
+    await asyncio.sleep(0)
+    return res
+async def main():
+    bad = []
+    fresh = {"subscribe();unsubscribe()": lambda s: (auto(s, "b"), s.unsubscribe()),
+             "assign();unsubscribe()": lambda s: (manual(s, "b"), s.unsubscribe()),
+             "subscribe();unsubscribe();assign()": lambda s: (auto(s, "b"), s.unsubscribe(), manual(s, "c"))}
+    later = {"unsubscribe();assign()": lambda s: (s.unsubscribe(), manual(s, "b")),
+             "unsubscribe();subscribe()": lambda s: (s.unsubscribe(), auto(s, "b")),
+             "unsubscribe();subscribe();unsubscribe()": lambda s: (s.unsubscribe(), auto(s, "b"), s.unsubscribe()),
+             "unsubscribe()": lambda s: s.unsubscribe()}
+    for fname, first in (("nothing", None), ("assign", manual), ("subscribe", auto)):
+        for cname, change in (fresh if first is None else later).items():
+            r = await scenario(first, change, first is not None)
+            if r: bad.append("after %s, then %s while the task was suspended: the coordination task ended with %s" % (fname, cname, r))
+    return bad
+bad = asyncio.run(main())
+VIOLATED = bool(bad)
+DETAIL = "%d schedules: %r" % (len(bad), bad[:3]) if bad else "ok"
+'''
